@@ -105,7 +105,7 @@ Section Sort.
   Proof.
     induction l as [|z l IH]; simpl.
     - intuition.
-    - destruct (Nat.ltb (key z) (key x)); simpl; [intuition|]. rewrite IH. intuition.
+    - destruct (Nat.leb (key z) (key x)); simpl; [intuition|]. rewrite IH. intuition.
   Qed.
 
   Lemma sort_In : forall y l, In y (sort_ops key l) <-> In y l.
@@ -120,11 +120,12 @@ Section Sort.
   Proof.
     induction l as [|z l IH]; intro H; simpl.
     - constructor; constructor.
-    - inversion H as [|? ? Hs Hf]; subst. destruct (Nat.ltb (key z) (key x)) eqn:E.
-      + apply Nat.ltb_lt in E. constructor; [exact H|]. constructor; [unfold ge_key; lia|].
+    - inversion H as [|? ? Hs Hf]; subst. destruct (Nat.leb (key z) (key x)) eqn:E.
+      + apply Nat.leb_le in E. constructor; [exact H|]. constructor; [unfold ge_key; lia|].
         rewrite Forall_forall in *. intros w Hw. specialize (Hf w Hw). unfold ge_key in *. lia.
-      + apply Nat.ltb_ge in E. constructor; [apply IH; exact Hs|].
-        rewrite Forall_forall in *. intros w Hw. apply insert_In in Hw. destruct Hw as [->|Hw]; [exact E|auto].
+      + apply Nat.leb_gt in E. constructor; [apply IH; exact Hs|].
+        rewrite Forall_forall in *. intros w Hw. apply insert_In in Hw.
+        destruct Hw as [->|Hw]; [unfold ge_key; lia|auto].
   Qed.
 
   Lemma sort_sorted : forall l, StronglySorted ge_key (sort_ops key l).
@@ -813,15 +814,15 @@ Proof.
   destruct (dec_int_head l Hl) as [c [r [El Hc]]].
   assert (Hlen : len l = S (len r)) by (subst l; reflexivity).
   revert F1 F2 Fb Fx Fo Fd. rewrite El. cbn [app]. intros F1 F2 Fb Fx Fo Fd.
-  rewrite (front_fail ops is_digit c (r ++ rest) Hwf Hc); try (vm_compute; reflexivity);
-    [|apply digit_not_id_start; exact Hc].
+  rewrite (front_fail ops is_digit c (r ++ rest) Hwf Hc);
+    [|vm_compute; reflexivity|vm_compute; reflexivity|apply digit_not_id_start; exact Hc].
   cbn [tail_rules skipn first_match rule_match rule_kind].
   rewrite F1, F2, Fb, Fx, Fo, Fd. rewrite <- El. rewrite Hlen. reflexivity.
 Qed.
 
 (* ---- raw strings and time literals ---- *)
 
-Lemma delim_shape : forall o body cl rest,
+Lemma delim_shape : forall (o : N) body cl rest,
   ((o :: body ++ [cl]) ++ rest)%list = (o :: body ++ cl :: rest)%list.
 Proof. intros. cbn [app]. rewrite <- app_assoc. reflexivity. Qed.
 
@@ -837,14 +838,17 @@ Proof.
   rewrite N.eqb_refl. reflexivity.
 Qed.
 
+Lemma forallb_ext_eq : forall (f g : N -> bool) l, (forall x, f x = g x) -> forallb f l = forallb g l.
+Proof. intros f g l H. induction l as [|x l IH]; [reflexivity|]. cbn [forallb]. rewrite H, IH. reflexivity. Qed.
+
 Lemma literal_raw : forall ops l rest,
   ops_wf ops = true -> raw_string l -> first_match (lexicon ops) (l ++ rest) = Some (K_STR, len l).
 Proof.
   intros ops l rest Hwf [body [-> Hb]]. rewrite delim_shape, delim_len.
-  rewrite (front_fail ops (N.eqb 96) 96 _ Hwf); try (vm_compute; reflexivity).
+  rewrite (front_fail ops (N.eqb 96) 96 _ Hwf); [|reflexivity|vm_compute; reflexivity..].
   cbn [tail_rules skipn first_match rule_match rule_kind].
   assert (Hraw : m_raw (96 :: body ++ 96 :: rest) = Some (2 + len body)%nat).
-  { apply m_delim_match; [|reflexivity]. rewrite <- Hb. apply forallb_ext. intro x.
+  { apply m_delim_match; [|reflexivity]. rewrite <- Hb. apply forallb_ext_eq. intro x.
     rewrite N.eqb_sym. reflexivity. }
   rewrite Hraw.
   assert (Hbin : forall t, m_bin (96 :: t) = None /\ m_hex (96 :: t) = None /\ m_oct (96 :: t) = None).
@@ -857,7 +861,7 @@ Lemma literal_time : forall ops l rest,
   ops_wf ops = true -> time_lit l -> first_match (lexicon ops) (l ++ rest) = Some (K_TIME, len l).
 Proof.
   intros ops l rest Hwf [body [-> Hb]]. rewrite delim_shape, delim_len.
-  rewrite (front_fail ops (N.eqb 39) 39 _ Hwf); try (vm_compute; reflexivity).
+  rewrite (front_fail ops (N.eqb 39) 39 _ Hwf); [|reflexivity|vm_compute; reflexivity..].
   cbn [tail_rules skipn first_match rule_match rule_kind].
   assert (Htime : m_time (39 :: body ++ 39 :: rest) = Some (2 + len body)%nat).
   { apply m_delim_match; [exact Hb|reflexivity]. }
